@@ -29,6 +29,24 @@ NOT_APPLICABLE = {
 HOOK_COMMITS = []
 
 PROPS = {
+    "C02": dict(
+        harness="det",
+        axioms=[],
+        uses_gen=True,
+        rule=("decision table of the property text (sample count around 63/64/last_index x suppression x keep_bit x "
+              "keep_last around 0/33/34/last-index boundary/4095 x requested_samples in {0,1,2,n+1,n+2,n+3,n+100}) with sample "
+              "fills incl. i16 extremes and negative sums not divisible by 64; short form with all flag/unused-bit "
+              "combinations; valid packets with one field changed (22 kinds), truncations/extensions, byte changes; "
+              "lengths 0..=120; random bytes. non-trivial = at least 16 bytes with type 1 and version 3; distinct = distinct bytes"),
+        trusted=MODELLED_DET + ["tools/gen.py translator (ALPHA16BOARDS, BASELINE_SAMPLES, MIN_KEEP_LAST regenerated into coq/Gen/Boards.v each run)"],
+        level_text=("Coq theorem adc_exact over a line-by-line model of AdcV3Packet::try_from (panic-aware, both overflow modes, any MAC "
+                    "table): accepted iff the field/consistency rules hold over Z and the bytes are the documented big-endian layout of "
+                    "the accessor values (up to the two unused footer bits); floor-mean lemma; never a panic; checked and wrapping "
+                    "builds agree. All byte lists, no bound."),
+        level_note=("trusted: Coq kernel; hand model tied by differential run (all 14 accessors incl. every waveform sample compared); "
+                    "board table and constants regenerated from source each run and re-checked by C02_consts_current; extraction; harness"),
+        note="model = spec by C02_adc_exact, so a difference is an input on which the implementation departs from the documented layout/rules",
+    ),
     "C06": dict(
         harness="det",
         axioms=[],
@@ -47,6 +65,26 @@ PROPS = {
         note="model = spec by C06_trg_exact, so any observation difference between implementation and model is a "
              "concrete input on which the implementation departs from the documented layout",
     ),
+    "C07": dict(
+        harness="det",
+        axioms=[],
+        uses_gen=False,
+        rule=("all 256 top bytes x 6 low patterns and random words (classification); scaler-block length boundaries; "
+              "streams from the grammar (timestamps, markers, scaler blocks whose bodies imitate words/tags, invalid "
+              "words, truncated tails) parsed whole, under every single cut (sampled for long streams in quick), random "
+              "multi-cuts and the all-1-byte-pieces schedule, fed with the resume protocol. non-trivial = at least 4 "
+              "bytes; distinct = distinct (stream, cut pattern)"),
+        trusted=MODELLED_DET + ["winnow 0.6.1 combinators (separated_foldl1, repeat(0..), alt, seq!, le_u24, u8.verify.try_map, take, le_u32) "
+                                "on complete &[u8] input are modelled by the recursive parser Codec/Chrono.v:cb_fifo"],
+        level_text=("Coq theorems over a model of chronobox_fifo: symbolic classification of all 2^32 words; the consumed prefix "
+                    "is a sequence of words/complete scaler blocks whose entries are exactly the output, the remainder is the "
+                    "untouched suffix and starts with no complete element; parse(a++b) = parse(a) then parse(rem++b); by "
+                    "induction any cutting into pieces gives the same entries and final remainder; every element consumes 4 "
+                    "or 244 bytes. Unbounded streams, no fuel hypothesis left (fuel = length proved sufficient)."),
+        level_note=("trusted: Coq kernel; hand model of the winnow parser tied by differential runs (whole vs implementation, "
+                    "piecewise vs implementation, all five entry fields + remainder length compared); extraction; harness"),
+        note="entries and remainder length of implementation and proved model must agree, whole and piecewise",
+    ),
 }
 
 
@@ -54,6 +92,11 @@ def setup():
     t0 = time.time()
     os.makedirs(BUILD, exist_ok=True)
     with vlib.Lock("build"):
+        import gen
+        gerr = gen.regenerate()
+        if gerr:
+            print("setup: translator failed: " + gerr)
+            return 1
         vlib.coq_makefile()
         rc, out = sh("make -j16", cwd=COQ, timeout=7200)
         if rc != 0:
@@ -116,11 +159,10 @@ def run(pid, tier, seed):
         os.remove(os.path.join(work, f))
 
     with vlib.Lock("build"):
-        if cfg.get("uses_gen"):
-            import gen
-            gerr = gen.regenerate()
-            if gerr:
-                notes.append("translator: " + gerr)
+        import gen
+        gerr = gen.regenerate()
+        if gerr:
+            notes.append("translator: " + gerr)
         coq = vlib.coq_build_prop(pid, timeout=3000, allowed_axioms=cfg["axioms"])
         hyg = vlib.coq_hygiene()
         model_exe, mout = vlib.build_modelrun()
